@@ -458,7 +458,7 @@ def job_static(files):
 # part (b): dynamic probes
 # ------------------------------------------------------------------------------------------------
 
-_ADDR = re.compile(r" at 0x[0-9a-fA-F]+")
+_ADDR = re.compile(r" at 0x[0-9a-fA-F]+|(?<=memory:)[0-9a-fA-F]+")    # also jinja2: <Template memory:7f...>
 _DIVE = ("lena", "c20_prelude", "ROOT")
 
 
